@@ -59,6 +59,11 @@ def chain_system(rng, depth, guess_kind, norm_kind, decl='domain', far=False, an
             guess = (tlo, tlo + 1.0)
         if decl == 'uniform':
             variables[f'u{k}'] = Variable(f'u{k}', distribution=f'U({guess[0]!r}, {guess[1]!r})', norm=norms[norm_kind])
+        elif decl == 'normal':
+            # a coupling variable described by a Normal density and normalised by its mean and standard deviation (argument-free zscore): the
+            # density must stay what it is while the domain moves
+            mu_, sd_ = (guess[0] + guess[1]) / 2, (guess[1] - guess[0]) / 6
+            variables[f'u{k}'] = Variable(f'u{k}', distribution=f'N({mu_!r}, {sd_!r})', norm='zscore')
         else:
             variables[f'u{k}'] = Variable(f'u{k}', domain=guess, norm=norms[norm_kind])
     for k in range(depth):
@@ -83,7 +88,9 @@ def run_chains(ctx: Ctx):
         guess = rng.choice(['exact', 'narrow', 'wide', 'offset', 'unit'])
         norm = rng.choice(['none', 'none', 'linear', 'zscore', 'minmax'])
         ub = rng.random() < 0.7; eb = rng.random() < 0.4
-        decl = rng.choice(['domain', 'uniform']); far = rng.random() < 0.3
+        decl = rng.choice(['domain', 'uniform', 'uniform', 'normal']); far = rng.random() < 0.3
+        if decl == 'normal':
+            norm = 'none'          # (the coupling variables carry their own zscore; nothing of the minmax finding F6 applies)
         if n < 3:          # stratified: the first chains always cover far-offset inputs / Uniform-declared offset guesses with estimated bounds
             depth = max(depth, 2)
             if n == 0:
@@ -91,6 +98,8 @@ def run_chains(ctx: Ctx):
             else:
                 decl, guess, eb, ub, norm = 'uniform', 'offset', True, (n == 2), 'none'
         analytic = depth >= 2 and (n == 3 or rng.random() < 0.25)
+        if n == 5:      # stratified: Normal-declared coupling variables with the argument-free zscore, bounds updated during training
+            depth = max(depth, 2); decl, norm, ub, eb, far, analytic = 'normal', 'none', True, False, False, False
         if n == 4:      # minmax with FIXED bounds and a wrong guess is exact (nothing moves): asking for fixed bounds must give fixed bounds
             depth = max(depth, 2); norm, ub, eb, guess, far = 'minmax', False, False, 'narrow', False
         if n == 3:
@@ -239,6 +248,49 @@ def run_centred_targets(ctx: Ctx):
                     break
 
 
+def run_nan_target(ctx: Ctx):
+    """an upstream output whose first surrogate is identically zero (an odd polynomial on a symmetric domain: zero at the centre node), so that
+    its relative change is 0/0 for every candidate, next to a downstream output that is not: the indicator is the largest over the outputs that
+    have one, training goes on to exhaustion and ends exact"""
+    from amisc import Component, System, Variable
+    rng = ctx.rng
+    for n in range(ctx.pick(2, 8)):
+        a, b = rng.randint(1, 3), rng.randint(1, 2)
+        c, d = rng.randint(1, 2), rng.randint(1, 3)
+
+        def f1(inputs, _a=a, _b=b):
+            x = np.asarray(inputs['x'], dtype=float)
+            return {'u': _a * x ** 3 - _b * 0.5 * x}
+
+        def f2(inputs, _c=c, _d=d):
+            x = np.asarray(inputs['x'], dtype=float); u = np.asarray(inputs['u'], dtype=float)
+            return {'w': _c * u ** 2 + x * u + _d}
+        listing = n % 2
+        xv = Variable('x', distribution='U(-1, 1)'); uv = Variable('u', domain=(-2.0, 2.0))
+        comps = [Component(f1, [xv], [uv], name='c1', vectorized=True, data_fidelity=(2,)),
+                 Component(f2, [xv, uv], [Variable('w')], name='c2', vectorized=True, data_fidelity=(1, 1))]
+        system = System(*(comps if listing == 0 else comps[::-1]), name='c04n')
+        case = {'zero_centred_upstream_output': n, 'coeffs': [a, b, c, d], 'listing': ['c1,c2', 'c2,c1'][listing]}
+        ctx.case(case, nontrivial=True, kind='chain:upstream-output-zero-at-first')
+        np.random.seed(ctx.seed * 37 + n)
+        try:
+            system.fit(max_iter=200, max_tol=-1.0)
+        except Exception as e:
+            ctx.violate('C04:training-raises', f'{type(e).__name__}: {e}', case); continue
+        left = {cc.name: len(cc.candidate_set) for cc in system.components}
+        if any(left.values()):
+            ctx.violate('C04:not-exhausted', f'fit() stopped after {len(system.train_history)} steps with candidates left: {left} (the upstream output starts with an identically '
+                        f'zero surrogate, the downstream one does not)', case); continue
+        xs = np.linspace(-1, 1, 21)
+        y = system.predict({'x': xs}, normalized_inputs=False)
+        for j, xq in enumerate(xs):
+            X = Fraction(float(xq)); U = a * X ** 3 - Fraction(b, 2) * X; W = c * U ** 2 + X * U + d
+            for name, ref in (('u', U), ('w', W)):
+                got = float(np.ravel(y[name])[j])
+                if not (got == got and abs(Fraction(got) - ref) <= Fraction(1, 10 ** 7) * (abs(ref) + 10)):
+                    ctx.violate('C04:chain-not-exact', f'{name} at x={float(xq)}: surrogate {got}, exact composition {float(ref)}', {**case, 'x': float(xq)}); break
+
+
 def run_loops(ctx: Ctx):
     rng = ctx.rng
     for n in range(ctx.pick(6, 60)):
@@ -345,6 +397,7 @@ def run(ctx: Ctx):
     run_chains(ctx)
     run_loops(ctx)
     run_centred_targets(ctx)
+    run_nan_target(ctx)
     import c04b
     c04b.compare(ctx, run_model)
     for (case, yimpl), mo in zip(ctx.fmeta, run_model(ctx.flines, shards=8) if ctx.flines else []):
